@@ -34,7 +34,9 @@ class Killed(BaseException):
 
 class Sched(object):
     def __init__(self):
-        self.lock = threading.Condition()
+        self.lock = threading.RLock()
+        self.idle = threading.Condition(self.lock)
+        self.running = 0          # actors currently executing real code (not blocked at a sync point, not finished)
         self.actors = collections.OrderedDict()
         self.trace = []
         self.tls = threading.local()
@@ -44,7 +46,7 @@ class Sched(object):
         self.nq = 0
         self.np = 0
         self.killed = False
-        self.version = 0      # bumped by every effect that changes fake state
+        self.version = 0      # bumped by every effect that changes fake state (progress)
 
     # --- actor side ---
     def me(self):
@@ -55,49 +57,61 @@ class Sched(object):
         name = self.me()
         if name is None:
             raise RuntimeError("fake multiprocessing primitive used outside a simulated actor")
+        a = self.actors[name]
         with self.lock:
-            a = self.actors[name]
             a["pending"] = (op, outcomes)
             a["state"] = "waiting"
-            self.lock.notify_all()
-            while a["state"] != "go":
-                self.lock.wait()
-            a["state"] = "running"
-            res = a.pop("result")
+            self.running -= 1
+            if self.running == 0:
+                self.idle.notify_all()
+        a["go"].acquire()
+        res = a.pop("result")
         if isinstance(res, BaseException):
             raise res
         return res
 
+    def _new_actor(self, name, kind):
+        a = dict(state="starting", pending=None, kind=kind, go=threading.Semaphore(0))
+        with self.lock:
+            self.actors[name] = a
+            self.running += 1
+        return a
+
+    def _finish(self, name, code, exc=None):
+        with self.lock:
+            a = self.actors[name]
+            a["state"] = "done"
+            a["exitcode"] = code
+            if exc is not None:
+                a["exc"] = exc
+            a["pending"] = None
+            self.version += 1
+            self.running -= 1
+            if self.running == 0:
+                self.idle.notify_all()
+
     def spawn(self, name, fn, kind="proc"):
         def run():
             self.tls.name = name
-            code = 0
+            code, exc = 0, None
             try:
                 self.sync(("start",), lambda: {"ok": lambda: None})
                 fn()
             except Killed:
                 code = -9
             except BaseException as e:  # noqa - like a real process: exit code 1, nothing propagates
-                self.actors[name]["exc"] = e
-                code = 1
-            with self.lock:
-                a = self.actors[name]
-                a["state"] = "done"
-                a["exitcode"] = code
-                a["pending"] = None
-                self.version += 1
-                self.lock.notify_all()
-        with self.lock:
-            self.actors[name] = dict(state="starting", pending=None, kind=kind)
+                code, exc = 1, e
+            self._finish(name, code, exc)
+        a = self._new_actor(name, kind)
         t = threading.Thread(target=run, daemon=True, name="sim-" + name)
-        self.actors[name]["thread"] = t
+        a["thread"] = t
         t.start()
 
     # --- scheduler side ---
     def quiesce(self):
         with self.lock:
-            while any(a["state"] in ("starting", "running", "go") for a in self.actors.values()):
-                self.lock.wait()
+            while self.running > 0:
+                self.idle.wait()
 
     def enabled(self):
         """List of (actor, op, outcome) for every enabled outcome of every blocked actor."""
@@ -111,8 +125,9 @@ class Sched(object):
         return out
 
     def step(self, name, outcome=None):
-        self.quiesce()
         with self.lock:
+            while self.running > 0:
+                self.idle.wait()
             a = self.actors[name]
             if a["state"] != "waiting":
                 raise KeyError("actor %s is not waiting (%s)" % (name, a["state"]))
@@ -130,9 +145,11 @@ class Sched(object):
                 res = e
             self.trace.append((name, op, outcome))
             a["result"] = res
-            a["state"] = "go"
-            self.lock.notify_all()
-        self.quiesce()
+            a["state"] = "running"
+            self.running += 1
+            a["go"].release()
+            while self.running > 0:
+                self.idle.wait()
         return op
 
     def pending(self, name):
@@ -160,8 +177,9 @@ class Sched(object):
             for a in self.actors.values():
                 if a["state"] == "waiting":
                     a["result"] = Killed()
-                    a["state"] = "go"
-            self.lock.notify_all()
+                    a["state"] = "running"
+                    self.running += 1
+                    a["go"].release()
         for a in list(self.actors.values()):
             t = a.get("thread")
             if t is not None:
@@ -300,13 +318,10 @@ def _ensure_feeder(q, owner):
         except Killed:
             pass
         finally:
-            with S.lock:
-                S.actors[fname]["state"] = "done"
-                S.actors[fname]["pending"] = None
-                S.lock.notify_all()
-    S.actors[fname] = dict(state="starting", pending=None, kind="feeder")
+            S._finish(fname, 0)
+    a = S._new_actor(fname, "feeder")
     t = threading.Thread(target=run, daemon=True, name="sim-" + fname)
-    S.actors[fname]["thread"] = t
+    a["thread"] = t
     t.start()
 
 
@@ -392,11 +407,11 @@ def installed():
     mp.Queue, mp.Event, mp.Process = FakeQueue, FakeEvent, FakeProcess
 
     class _NoCatch(object):  # warnings.catch_warnings is not thread-safe across sync points
-        def __init__(self, *a, **k):
-            pass
+        def __init__(self, *a, record=False, **k):
+            self._record = record
 
         def __enter__(self):
-            return None
+            return [] if self._record else None
 
         def __exit__(self, *a):
             return False
@@ -413,9 +428,11 @@ def installed():
 
 def cb_sync(tag, payload=None, log=None):
     """Sync point for harness callbacks (cb_start / cb_end ...)."""
+    who = S.me()
+
     def eff():
         if log is not None:
-            log.append((tag, payload, S.me()))
+            log.append((tag, payload, who))
         _bump()
     S.sync((tag,), lambda: {"ok": eff})
 
@@ -472,14 +489,16 @@ def _probe_hang(S, rounds):
             return (not S.all_done()), n
         if S.version != v0 or not all(nonprogress(c) for c in en):
             return False, n
-        for actor in sorted({c[0] for c in en}):
-            cur = [c for c in S.enabled() if c[0] == actor]
-            if not cur:
-                continue
-            if not all(nonprogress(c) for c in cur) or S.version != v0:
+        first = {}
+        for c in en:
+            first.setdefault(c[0], c)
+        for actor, c in first.items():
+            if S.version != v0:
                 return False, n
-            # prefer the timeout-ish outcome so that pollers cycle through their whole loop
-            S.step(actor, cur[0][2])
+            try:
+                S.step(actor, c[2])
+            except KeyError:
+                continue   # its outcome set changed because of an earlier step of this round (reader lock)
             n += 1
     en = S.enabled()
-    return (S.version == v0 and all(nonprogress(c) for c in en)), n
+    return (S.version == v0 and bool(en) and all(nonprogress(c) for c in en)), n
